@@ -638,7 +638,7 @@ fn f2m_case(out: &mut Out, a: u16, ty: u8, d: &[u8]) {
 }
 
 fn c04(thorough: bool, rng: &mut Rng, out: &mut Out) {
-    out.rule = "f2m over message types 0..=255 x first data byte x data lengths {0,1,2,3,16,255} x addresses; every recognised (type, first byte) code over the address range; non-trivial = the protocol table recognises the frame as a specific message; distinct = distinct case line".into();
+    out.rule = "f2m over message types 0..=255 x first data byte x data lengths {0,1,2,3,16,255} x addresses; uniform (00 / FF / 55) and patterned payloads of every length 0..=255 for the data type and other types; every recognised (type, first byte) code over the address range; non-trivial = the protocol table recognises the frame as a specific message; distinct = distinct case line".into();
     out.exhaustive_note = if thorough {
         "all 256 types x all 256 first bytes x lengths {0,1,2,3,16,255} x 6 addresses, and all 65536 addresses for each of the 31 recognised codes, are enumerated completely".into()
     } else {
@@ -665,6 +665,27 @@ fn c04(thorough: bool, rng: &mut Rng, out: &mut Out) {
                     }
                     f2m_case(out, a, ty, &d);
                 }
+            }
+        }
+    }
+    // uniform and patterned payloads of every length 0..=255 (a shortcut keyed on the content — "blank",
+    // all-ones, a repeated byte — must not change what is forwarded), for the data type and a few others
+    for len in 0..=255usize {
+        let tys: &[u8] = if thorough { &[0, 1, 2, 3, 4, 5, 6, 7, 0x42, 0xFF] } else { &[0, 2, 4, 0x42] };
+        for &ty in tys {
+            let fills: Vec<Vec<u8>> = vec![
+                vec![0x00; len],
+                vec![0xFF; len],
+                vec![0x55; len],
+                (0..len).map(|i| i as u8).collect(),
+                (0..len).map(|i| if i + 1 == len { 1 } else { 0 }).collect(),
+            ];
+            for (k, d) in fills.iter().enumerate() {
+                if !thorough && ty != 0 && k > 1 {
+                    continue;
+                }
+                out.stat("f2m.uniform-payload");
+                f2m_case(out, if len % 2 == 0 { 3 } else { 0xABCD }, ty, d);
             }
         }
     }
@@ -784,7 +805,7 @@ fn c05(thorough: bool, rng: &mut Rng, out: &mut Out) {
 // C19 : sign types
 
 fn c19(thorough: bool, rng: &mut Rng, out: &mut Out) {
-    out.rule = "all 11 sign types: to_bytes, dimensions, from_bytes(to_bytes), field consistency, and a virtual sign configured with the block accepting exactly a page of the type's size; from_bytes over all 65536 (family,id) pairs x fillers and over random strings of length 0..=40; non-trivial = a 16-byte input (reaches the family/id match) or a per-type case; distinct = distinct case line".into();
+    out.rule = "all 11 sign types: to_bytes, dimensions, from_bytes(to_bytes), field consistency, and a virtual sign configured with the block accepting exactly a page of the type's size; from_bytes over all 65536 (family,id) pairs x fillers and over random strings of length 0..=40 and long inputs whose length is 16 modulo 256 / 65536; non-trivial = a 16-byte input (reaches the family/id match) or a per-type case; distinct = distinct case line".into();
     out.exhaustive_note = "the 11 types and all 65536 (family,id) pairs are enumerated completely".into();
     for (k, t) in TYPES.iter().enumerate() {
         let i = out.case(format!("type tobytes {}", k), true);
@@ -865,6 +886,26 @@ fn c19(thorough: bool, rng: &mut Rng, out: &mut Out) {
             }
         }
     }
+    // lengths that are 16 only modulo a power of two, and other long inputs: a length kept in a narrow
+    // integer must not make them look like a 16-byte block (each with a supported and an unsupported header)
+    for len in [255usize, 256, 257, 271, 272, 273, 528, 4112, 65535, 65536, 65552, 65553] {
+        for known in [true, false] {
+            let mut d = vec![0u8; len];
+            let t = TYPES[len % TYPES.len()].to_bytes();
+            if known {
+                d[..16].copy_from_slice(t);
+            } else {
+                d[0] = 0x33;
+                d[1] = 0x44;
+            }
+            let i = out.case(format!("type frombytes {}", to_hex(&d)), false);
+            out.stat("frombytes.long-input");
+            if out.impls[i] != format!("err wronglen 16 {}", len) {
+                let shown = out.impls[i].clone();
+                out.fail(i, format!("C19 from_bytes accepted / misreported a {}-byte string: {}", len, shown));
+            }
+        }
+    }
     let n = if thorough { 20_000 } else { 2_000 };
     for _ in 0..n {
         let len = rng.range(0, 40) as usize;
@@ -926,6 +967,7 @@ fn expect_total(w: u32, h: u32) -> usize {
 }
 
 fn c07(thorough: bool, rng: &mut Rng, out: &mut Out) {
+    c07_huge(out);
     out.rule = "for every size in the box (w 0..=9 x h 0..=33 thorough; 0..=6 x 0..=18 + corners quick), the 11 sign sizes and 3 large sizes: new-page bytes for several ids, one set_pixel per pixel (all pixels for small pages, sampled for large) compared with the stated byte/bit position, and from_bytes at lengths total+-{0,1,15,16}; non-trivial = a case on a page with at least one pixel; distinct = distinct case line".into();
     out.exhaustive_note = "the size box is enumerated completely; ids 0..=255 complete on one size; pixels complete for pages up to 300 pixels".into();
     for id in 0..=255u8 {
@@ -1005,6 +1047,30 @@ fn c07(thorough: bool, rng: &mut Rng, out: &mut Out) {
     }
 }
 
+/// Sizes whose byte count does not fit 32 bits: `from_bytes` must still size them in `usize` and reject a
+/// small buffer with the exact expected count (no wrap-around, no overflow panic).
+fn c07_huge(out: &mut Out) {
+    let m = u32::MAX;
+    for (w, h) in [(65536u32, 524288u32), (65537, 524288), (65535, 524288), (m, 9), (m, 8), (m, m), (m, 1), (1 << 31, 16), (1 << 28, 128), (3, m), (0, m), (m, 0)] {
+        let bpc = (h as u128 + 7) / 8;
+        let data = 4 + w as u128 * bpc;
+        let total = (data + 15) / 16 * 16;
+        for len in [16u64, 32, 0] {
+            let i = out.case(format!("page from {} {} g:{}:5 b", w, h, len), w > 0 && h > 0);
+            out.stat("from.huge-size");
+            let src = gen_bytes(5, len);
+            let want = if total == len as u128 {
+                format!("{} {} {} {}", to_hex(&src), w, h, to_hex(&src))
+            } else {
+                format!("err wronglen {} {} {} {}", w, h, total, len)
+            };
+            if out.impls[i] != want {
+                out.fail(i, format!("C07 from_bytes({}x{}, {} bytes; total is {}) gave '{}'", w, h, len, total, &out.impls[i][..out.impls[i].len().min(60)]));
+            }
+        }
+    }
+}
+
 fn c06(thorough: bool, rng: &mut Rng, out: &mut Out) {
     out.rule = "for every size in the box + 11 sign sizes + large sizes: out-of-bounds get/set at (w,0),(0,h),(w,h),(w+1,0),(0,h+1),(u32::MAX,*) one per line; every in-bounds pixel get on small pages; random sequences of 10..60 set/clear/set-all/get operations on fresh pages and on pages over borrowed random bytes, checked against a Vec<Vec<bool>> shadow plus id / padding / length preservation; non-trivial = an operation sequence that performs at least one in-bounds write, or an out-of-bounds probe on a page with pixels; distinct = distinct case line".into();
     out.exhaustive_note = "sizes and the out-of-bounds probe set are enumerated completely; operation sequences are sampled".into();
@@ -1045,7 +1111,9 @@ fn c06(thorough: bool, rng: &mut Rng, out: &mut Out) {
             let total = expect_total(w, h);
             let seed = rng.below(1000);
             let (mut page, head) = if borrowed {
-                let src = gen_bytes(seed, total as u64);
+                // a page over BORROWED bytes (leaked so that the borrow outlives the loop body): the first
+                // mutation has to copy, and what it copies must be exactly what was there
+                let src: &'static [u8] = Box::leak(gen_bytes(seed, total as u64).into_boxed_slice());
                 (Page::from_bytes(w, h, src).unwrap(), format!("page from {} {} g:{}:{}", w, h, total, seed))
             } else {
                 let id = rng.byte();
@@ -1061,7 +1129,7 @@ fn c06(thorough: bool, rng: &mut Rng, out: &mut Out) {
             for _ in 0..nops {
                 let x = rng.below(w as u64) as u32;
                 let y = rng.below(h as u64) as u32;
-                let kind = rng.below(10);
+                let kind = if borrowed && line.ends_with(&format!(":{}", seed)) && rng.chance(40) { 0 } else { rng.below(10) };
                 let v = if kind == 0 { rng.chance(50) } else { rng.chance(60) };
                 let probes: Vec<(u32, u32)> = (0..16).map(|_| (rng.below(w as u64) as u32, rng.below(h as u64) as u32)).collect();
                 match kind {
